@@ -19,6 +19,7 @@ EXTENDS Integers, TLC
 CONSTANTS SpinSync,   \* world configured with force_spin_sync
           ObliqOn,    \* tides configured with obliquity_tides_on
           NVals,      \* number of alternative values per input (value ids 0..NVals-1)
+          NLayers,    \* number of tidally active layers (io_simple: 1, earth_simple: 2); each has its own temperature / strength
           Bug         \* "none", or a deliberately broken cascade (negative controls of the model)
 
 VARIABLES e, obl, orb, spin, tm, tw,    \* inputs: eccentricity, obliquity, orbital frequency, spin, mantle strength source, time
@@ -48,12 +49,18 @@ Memo == [sus |-> sus, eccRes |-> eccRes, oblRes |-> oblRes, terms |-> terms, ufr
 \* PhysicsOrbit.dissipation_changed
 OrbitDiss(m, ne, norb) == IF m.coll # None THEN [m EXCEPT !.deriv = <<m.coll, ne, norb>>] ELSE m
 
-\* ComplexCompliance._calculate: only when the tidal frequencies AND the strength exist; otherwise the old value stays
-CalcCompl(m) == IF m.ufreq # None /\ m.visc # None THEN [m EXCEPT !.compl = <<m.visc, m.ufreq>>] ELSE m
+Layers == 1..NLayers
+NoneL == [L \in Layers |-> None]
+\* ComplexCompliance._calculate of one layer: only when the tidal frequencies AND that layer's strength exist; otherwise the old value stays
+CalcComplL(m, L) == IF m.ufreq # None /\ m.visc[L] # None THEN [m EXCEPT !.compl[L] = <<m.visc[L], m.ufreq>>] ELSE m
+\* world.tidal_frequencies_changed: every layer in turn
+RECURSIVE CalcComplUpTo(_, _)
+CalcComplUpTo(m, n) == IF n = 0 THEN m ELSE CalcComplL(CalcComplUpTo(m, n - 1), n)
+CalcCompl(m) == CalcComplUpTo(m, NLayers)
 
 \* LayeredTides.collapse_modes: needs the tidal terms; breaks out (keeps the old results) if the layer has no compliances yet
 Collapse(m, ne, norb) ==
-  IF m.terms # None /\ m.compl # None
+  IF m.terms # None /\ (\A L \in Layers : m.compl[L] # None)
     THEN OrbitDiss([m EXCEPT !.coll = <<m.terms, m.compl, m.sus>>], ne, norb)
     ELSE m
 
@@ -77,23 +84,23 @@ WorldOSC(m, ne, nobl, norb, nspin, eccCh, oblCh, orbCh, spinCh) ==
 
 \* layer temperature / strength changed: viscosity models -> Rheology.strength_changed -> compliances ->
 \* complex_compliances_changed (only if there ARE compliances) -> world -> tides.collapse_modes
-StrengthChanged(m, src, ne, norb) ==
-  LET m1 == [m EXCEPT !.visc = src]
-      m2 == CalcCompl(m1)
+StrengthChanged(m, L, src, ne, norb) ==
+  LET m1 == [m EXCEPT !.visc[L] = src]
+      m2 == CalcComplL(m1, L)
   \* negative control "no_collapse_on_strength": a strength change recomputes the compliances but does not collapse the modes
-  IN IF m2.compl # None /\ Bug # "no_collapse_on_strength" THEN Collapse(m2, ne, norb) ELSE m2
+  IN IF m2.compl[L] # None /\ Bug # "no_collapse_on_strength" THEN Collapse(m2, ne, norb) ELSE m2
 
 SetMemos(m) == /\ sus' = m.sus /\ eccRes' = m.eccRes /\ oblRes' = m.oblRes /\ terms' = m.terms /\ ufreq' = m.ufreq
                /\ visc' = m.visc /\ compl' = m.compl /\ coll' = m.coll /\ deriv' = m.deriv
 SetMemos0(m) == /\ sus = m.sus /\ eccRes = m.eccRes /\ oblRes = m.oblRes /\ terms = m.terms /\ ufreq = m.ufreq
                 /\ visc = m.visc /\ compl = m.compl /\ coll = m.coll /\ deriv = m.deriv
 
-BlankMemo == [sus |-> 0, eccRes |-> NotGiven, oblRes |-> NotGiven, terms |-> None, ufreq |-> None, visc |-> None,
-              compl |-> None, coll |-> None, deriv |-> None]
+BlankMemo == [sus |-> 0, eccRes |-> NotGiven, oblRes |-> NotGiven, terms |-> None, ufreq |-> None, visc |-> NoneL,
+              compl |-> NoneL, coll |-> None, deriv |-> None]
 \* construction: PhysicsOrbit(...) runs the cascade once (eccentricity and orbital frequency from the configuration); no
 \* layer temperature has been set
 Init ==
-  /\ e = 0 /\ obl = 0 /\ orb = 0 /\ tm = None /\ tw = None /\ radio = None
+  /\ e = 0 /\ obl = 0 /\ orb = 0 /\ tm = NoneL /\ tw = None /\ radio = None
   /\ spin = (IF SpinSync THEN 0 ELSE NoSpin)
   /\ SetMemos0(WorldOSC(BlankMemo, 0, 0, 0, IF SpinSync THEN 0 ELSE NoSpin, TRUE, FALSE, TRUE, SpinSync))
 
@@ -120,11 +127,11 @@ OrbitSetState(ec, orv) ==
      IN /\ e' = ne /\ orb' = norb /\ spin' = nspin /\ UNCHANGED <<obl, tm, tw, radio>>
         /\ SetMemos(WorldOSC(Memo, ne, obl, norb, nspin, Given(ec), FALSE, Given(orv), Given(orv) /\ SpinSync))
 \* layer.set_state(temperature=T) / layer.temperature = T / layer.set_temperature(T)
-LayerSetTemp(t) == /\ tm' = <<"T", t>> /\ UNCHANGED <<e, obl, orb, spin, tw, radio>>
-                   /\ SetMemos(StrengthChanged(Memo, <<"T", t>>, e, orb))
+LayerSetTemp(L, t) == /\ tm' = [tm EXCEPT ![L] = <<"T", t>>] /\ UNCHANGED <<e, obl, orb, spin, tw, radio>>
+                      /\ SetMemos(StrengthChanged(Memo, L, <<"T", t>>, e, orb))
 \* layer.set_strength(viscosity, shear_modulus): overrides what the temperature gave
-LayerSetStrength(s) == /\ tm' = <<"S", s>> /\ UNCHANGED <<e, obl, orb, spin, tw, radio>>
-                       /\ SetMemos(StrengthChanged(Memo, <<"S", s>>, e, orb))
+LayerSetStrength(L, s) == /\ tm' = [tm EXCEPT ![L] = <<"S", s>>] /\ UNCHANGED <<e, obl, orb, spin, tw, radio>>
+                          /\ SetMemos(StrengthChanged(Memo, L, <<"S", s>>, e, orb))
 
 \* orbit.time = t (the time lives on the orbit once a world is in one): every world's layers recompute their radiogenic
 \* heating; nothing tidal depends on it
@@ -136,22 +143,25 @@ Next ==
   \/ \E sp \in Vals : WorldSetSpin(sp)
   \/ \E ob \in Vals : WorldSetObliquity(ob)
   \/ \E ec \in OptVals, orv \in OptVals : OrbitSetState(ec, orv)
-  \/ \E t \in Vals : LayerSetTemp(t)
-  \/ \E s \in Vals : LayerSetStrength(s)
+  \/ \E L \in Layers, t \in Vals : LayerSetTemp(L, t)
+  \/ \E L \in Layers, s \in Vals : LayerSetStrength(L, s)
   \/ \E t \in Vals : OrbitSetTime(t)
 Spec == Init /\ [][Next]_vars
 
 \* ---- C13: every exposed derived quantity is a function of the current inputs only ----
 OblEff == IF ObliqOn THEN obl ELSE Zero
 ExpTerms == <<e, OblEff, orb, spin>>
-ExpCompl == <<tm, <<orb, spin>>>>
+ExpCompl == [L \in Layers |-> <<tm[L], <<orb, spin>>>>]
 ExpColl == <<ExpTerms, ExpCompl, orb>>
+AllSet == \A L \in Layers : tm[L] # None
 C13_Fresh_Layered ==
   /\ radio = tw
   /\ sus = orb
-  /\ (tm # None => visc = tm)
+  /\ \A L \in Layers : (tm[L] # None => visc[L] = tm[L])
   /\ (spin # NoSpin => terms = ExpTerms /\ ufreq = <<orb, spin>>)
-  /\ IF spin # NoSpin /\ tm # None THEN compl = ExpCompl /\ coll = ExpColl /\ deriv = <<ExpColl, e, orb>>
-                                    ELSE coll = None /\ deriv = None
+  /\ \A L \in Layers : (spin # NoSpin /\ tm[L] # None => compl[L] = ExpCompl[L])
+  \* results exist only once EVERY tidal layer has a strength (collapse_modes breaks out otherwise and nothing was ever computed)
+  /\ IF spin # NoSpin /\ AllSet THEN coll = ExpColl /\ deriv = <<ExpColl, e, orb>>
+                               ELSE coll = None /\ deriv = None
 SyncHolds == SpinSync /\ spin # NoSpin => spin = orb
 =============================================================================
